@@ -175,6 +175,8 @@ func planC12(c *Ctx, run int64) *Plan {
 					add(cat.Code, rate.Key, d, 3, q)
 					add(cat.Code, rate.Key, d, 4, q)
 					add(cat.Code, rate.Key, d, 5, q) // the table reached through a per-combo country override from another regime
+					add(cat.Code, rate.Key, d, 6, q) // value date later than the issue date, operation date present
+					add(cat.Code, rate.Key, d, 7, q) // an order instead of an invoice
 					if d >= "2000-01-02" {
 						add(cat.Code, rate.Key, d, 0, q)
 						add(cat.Code, rate.Key, d, 1, q)
@@ -352,6 +354,17 @@ func c12one(x *X, reg *pubRegime, loc *time.Location, cs c12case, step int) {
 			accept = append(accept, v)
 		}
 	}
+	// a value qualified by a tag or extension that applies is more specific than an
+	// unqualified one with the same start date (otherwise the qualified row could never apply)
+	var specific []pubRateValue
+	for _, v := range accept {
+		if len(v.Tags) > 0 || len(v.Ext) > 0 {
+			specific = append(specific, v)
+		}
+	}
+	if len(specific) > 0 && len(specific) < len(accept) {
+		accept = specific
+	}
 	// ---- the document
 	combo := map[string]any{"cat": op.S, "rate": op.S2}
 	cext := map[string]string{}
@@ -376,13 +389,21 @@ func c12one(x *X, reg *pubRegime, loc *time.Location, cs c12case, step int) {
 	if len(tags) > 0 {
 		doc["$tags"] = tags
 	}
-	mode := []string{"clock-00:00:00", "clock-12:00:00", "clock-23:59:59", "issue_date", "value_date", "foreign-combo"}[op.I]
+	mode := []string{"clock-00:00:00", "clock-12:00:00", "clock-23:59:59", "issue_date", "value_date", "foreign-combo", "value_date-after-issue", "order"}[op.I]
 	switch op.I {
 	case 3:
 		doc["issue_date"] = D
 	case 4:
 		doc["issue_date"] = dateAdd(D, 45)
 		doc["value_date"] = D
+		doc["op_date"] = dateAdd(D, 200) // the operation date is not the tax date
+	case 6:
+		doc["issue_date"] = dateAdd(D, -400)
+		doc["value_date"] = D
+		doc["op_date"] = dateAdd(D, -800)
+	case 7:
+		doc["$schema"] = "https://gobl.org/draft-0/bill/order"
+		doc["issue_date"] = D
 	case 5:
 		// an invoice of another regime whose combo names this regime's country
 		host := "ES"
